@@ -31,6 +31,7 @@ CHECKS = {
  'C16': ('model_checking', 'stateless DFS (preemption bound 1-3 / delay bound 1-3) over all semaphore, pipe, condition and thread operations of real Queue/SimpleQueue/JoinableQueue with one queue copy per virtual process (spawn pickling) and the feeder thread as a vthread', 'multiset and per-producer order preserved, capacity never exceeded, Full/Empty only when justified by the virtual clock, join() returns exactly when unfinished == 0, no deadlock.', 'Trusted: VSemLock/VPipe models (conformance replayed), vthreading look-alikes for the feeder thread.', '5/C16'),
  'C17': ('model_checking', 'stateless DFS over all interleavings of semaphore operations (preemption + timer-deviation bounded) of the real synchronize.py over a conformance-checked semaphore model', 'Every interleaving, at the granularity of single semaphore operations and with timeouts firing at any point, of 2-5 waiters/notifiers/setters within the stated preemption bound is executed on the real Condition/Event/Lock/Semaphore code; oracle = lost/spurious wake-up rules, holder counts, reference counter model, post-quiescence probe.', 'Trusted: VSemLock model (replayed against the real _multiprocessing.SemLock for all non-blocking histories to depth 4-5), sem_wait blocking semantics, CPython. Bounds: <=3 waiters, <=2 notifiers, preemptions+timer deviations <=2 (3 thorough for <=3 threads).', '5/C17'),
  'C18': ('model_checking', 'all interleavings (and short-I/O deviations) of the real Listener.accept/Client handshake over a virtual socketpair for 19 key pairs; complete enumeration of 12^3 adversary scripts per honest role; real AF_UNIX conformance', 'Both sides connect iff keys equal, otherwise both raise AuthenticationError; any wrong digest/verdict/EOF is refused; challenges are the next 20 bytes of the random source each session; non-bytes keys rejected before any I/O.', 'Trusted: hmac/md5, VPipe model (79 scripts replayed on kernel sockets). HMAC key normalisation (keys equal after zero padding / hashing) is outside the alphabet.', '5/C18'),
+ 'C19': ('model_checking', 'explicit-state BFS over operation/exit histories of the real BaseProcess + real Popen.poll/wait/terminate on the virtual process table (closed under depth 5), history enumeration without de-duplication as cross-check, preemption-bounded DFS of parent||child-exit races with LINE-level points, complete exit-status table, and the complete finite matrix of child exit paths x start methods on real processes', 'exitcode None / is_alive until the child ended, then the decoded status for every exit code 0-255 and signal 1-64; timed join bounded by its timeout in virtual time; joined child leaves active_children; second start and foreign start refused; real children: return->0, raise->1, sys.exit(n)->n, signal s->-s (non-zero under forkserver) for fork, spawn, forkserver.', 'Trusted: virtual process table (waitpid status encoding as the kernel\'s), real-process part has no wall-clock assertions. Child-side bootstrap code is decided on real processes (finite input space, no schedule dependence).', '5/C19'),
 }
 
 NOT_YET = {}
